@@ -542,6 +542,7 @@ func c12R4(c *Ctx, r *Report) {
 			}
 		})
 		var problems []string
+		cells := map[*ssa.Alloc]bool{}
 		if w == nil {
 			problems = append(problems, "no freshly allocated response writer")
 		} else {
@@ -561,12 +562,23 @@ func c12R4(c *Ctx, r *Report) {
 				if fa, ok := st.Addr.(*ssa.FieldAddr); ok && fa.X == w {
 					return
 				}
+				// allowed: the function's own variable (a cell of its own when a closure of this function captures w)
+				if cell, ok := st.Addr.(*ssa.Alloc); ok && cell.Parent() == f {
+					cells[cell] = true
+					return
+				}
 				problems = append(problems, fmt.Sprintf("%s: the response writer is stored into %v (shared between requests)", c.pos(st.Pos()), st.Addr))
 			})
 			// serveDNS gets this writer
 			okPass := false
 			for _, ci := range callsIn(f, "(Server).serveDNS") {
-				if ci.Common().Args[2] == w {
+				a := ci.Common().Args[2]
+				if ld, ok := a.(*ssa.UnOp); ok {
+					if cell, ok := ld.X.(*ssa.Alloc); ok && cells[cell] {
+						a = w
+					}
+				}
+				if a == w {
 					okPass = true
 				}
 			}
